@@ -113,6 +113,13 @@ def r1_shared_cycles(ctx):
         for cont in sorted(containers):
             ent = table.get(cont)
             if ent is None:
+                # a private container field may have been renamed: the type's single tabled container stands for its single container
+                ty = cont.split('.')[0]
+                tabled = [k for k in table if k.split('.')[0] == ty]
+                found = [c for c in containers if c.split('.')[0] == ty]
+                if len(tabled) == 1 and len(found) == 1:
+                    ent = table[tabled[0]]
+            if ent is None:
                 ctx.violation('unbroken-container:%s' % cont,
                               '%s lives in a shared object and holds strong references back into the cycle {%s}; nothing empties it when the simulation is dropped, so its contents (and what they reference) leak' % (cont, ', '.join(names)),
                               None, {'component': names})
